@@ -71,6 +71,9 @@ def run(ctx, pid=PID, families=(("commit", 120, 600), ("retry", 60, 300)), mutan
         run_no = scen[-1]["run"] + 1
     scen += core.directed_scenarios(run_no)
     run_no = scen[-1]["run"] + 1
+    stp = core.stopretry_scenarios(ctx, 12 if thorough else 4, run_no)
+    run_no += len(stp)
+    scen += stp
     # the put || tryUnblock window (sequential: it pins the process to one P for an instant)
     win = core.window_scenarios(ctx, 24 if thorough else 8, run_no)
     run_no += len(win)
